@@ -37,12 +37,12 @@ int disasm_dotnet(
 
   if (opcode == 0xfe)
   {
-    opcode = memory->read8(address + 1);
+    const int opcode_fe = memory->read8(address + 1);
 
     n = 0;
     while (table_dotnet_fe[n].instr != NULL)
     {
-      if (opcode != table_dotnet_fe[n].opcode)
+      if (opcode_fe != table_dotnet_fe[n].opcode)
       {
         n++;
         continue;
